@@ -282,8 +282,15 @@ class Lexer:
 
     def next_token(self) -> Token:
         """Get the next token."""
+        start = self.pos
         self._skip_whitespace()
+        skipped = self.source[start : self.pos]
+        token = self._scan_token()
+        token.newline_before = any(ch in "\n\r\u2028\u2029" for ch in skipped)
+        return token
 
+    def _scan_token(self) -> Token:
+        """The token that starts at the current position."""
         line = self.line
         column = self.column
 
